@@ -31,6 +31,26 @@ def operator_helper_harness():
                    shapes=[dict(d, LEVEL=l, _tag='level=%d' % l, _witness=('witness: no operator of this level',) + (('witness: matched',) if l < 12 else ())) for l in range(13)],
                    opts=['--unwind', '8'], timeout=300, mem_gb=6, string_model=True, inputs=['hit_at'], note='Symbol() is an oracle (which of the offered spellings matches, if any); the table rows and the switch of any_of are real')
 
+def equation_harness():
+    import re
+    from props.parser_family import FAM as PF, P
+    rx = P + r'Equation\(\)$'
+    stubs = [P + r'Operator\(unsigned long\)$', P + r'Symbol\(', P + r'SkipWS\(', P + r'build_match<', r'eval_error::eval_error\(', P + r'Depth_Counter::'] + core.STRING_MODEL
+    cuts = [r'eval_error::~eval_error']
+    g, info = core.translate(PF, [rx], stubs, tag='S3d_probe', cuts=cuts)
+    ext = [e.split('|')[0].strip() for e in info['ext']]
+    def one(pat):
+        m = [e for e in ext if re.search(pat, e)]
+        if len(m) != 1: raise core.BuildError('Equation(): expected exactly one external matching %s, found %d' % (pat, len(m)))
+        return 'F_' + core.cname(m[0])
+    d = {'EQUATION': core.csym(PF, rx), 'OPERAND': one(r'EE8OperatorEm$'), 'SYMBOL': one(r'EE6SymbolE'), 'SKIPWS': one(r'EE6SkipWSEb$'), 'BUILD_EQUATION': one(r'11build_matchINS\w*?Equation_AST_Node'),
+         'DC_CTOR': one(r'13Depth_CounterC[12]E'), 'DC_DTOR': one(r'13Depth_CounterD[12]E'), 'EE_CTOR3': one(r'eval_errorC[12]ERKNSt7__cxx1112basic_string.*File_Position'),
+         'STRING_LITERALS_OPAQUE': 1, 'VERIF_SELF_CALL(f)': 'equation_rec', 'VERIF_SELF_CALL_PROTO': 'uint8_t equation_rec(char*);'}
+    return Harness('S3d.Equation(assignment operators, right associativity)', PF, [rx], 'c03_equation.c', stubs=stubs, cuts=cuts,
+                   shapes=[dict(d, _tag='-', _witness=('witness: no operand', 'witness: incomplete assignment', 'witness: one assignment', 'witness: plain operand'))],
+                   opts=['--unwind', '14', '--unwindset', 'main.0:5,spelling_of.0:14,spelling_of.1:14,spelling_of.2:14,BUILD_EQUATION.0:6'], timeout=600, mem_gb=8, string_model=True, inputs=['value_ok', 'assign_after'],
+                   note='token-stream model by position; Operator() (left side) and the recursive Equation() (right side) are induction hypotheses')
+
 def operator_recursion_harness(tier):
     import os, re
     from props.parser_family import FAM as PF, P
@@ -80,7 +100,7 @@ def operator_node_harness(kind):
     return h
 
 def harnesses(tier):
-    hs = [to_operator_harness(), precedence_harness(), operator_helper_harness(), operator_recursion_harness(tier)] + [operator_node_harness(k) for k in (1, 2, 3)]
+    hs = [to_operator_harness(), precedence_harness(), operator_helper_harness(), operator_recursion_harness(tier), equation_harness()] + [operator_node_harness(k) for k in (1, 2, 3)]
     for k in C09.KINDS:
         h = C09.node_harness(k); h.name = 'S4.' + h.name[2:]; hs.append(h)
     e = C07.equation_harness(); e.name = 'S4.Equation'; hs.append(e)
